@@ -324,8 +324,10 @@ fn oracle_stream(case: &[u8], obs: &mut Obs) -> Result<(), String> {
         Err(_) => (0, 0),
     };
     let (chunks, intr) = crate::stream::gen_reader_behaviour(&mut c, 16);
-    let mode = c.below(4);
+    let mode = c.below(5);
     let mut reader = match mode {
+        // a healthy stream (the queries run to their end on the adversarial file)
+        4 => Reader::with(data.clone(), chunks, intr, vec![]),
         // the stream claims more bytes than it can deliver
         0 => Reader::with(data.clone(), chunks, intr, vec![]).over_reporting(1 + c.below(100_000)),
         // the file was cut after it was measured: the reported length is the old one
@@ -350,14 +352,31 @@ fn oracle_stream(case: &[u8], obs: &mut Obs) -> Result<(), String> {
             let _ = crate::queries::eval_stream(&mut s, q);
             returned += 1;
         }
+        // the entry and note iterators a stream hands out: at most one item per byte of the section
+        let hs: Vec<elf::section::SectionHeader> = s.section_headers().iter().copied().take(48).collect();
+        for (i, h) in hs.iter().enumerate() {
+            let bound = (h.sh_size as usize).min(data.len());
+            let n = match h.sh_type {
+                elf::abi::SHT_REL => s.section_data_as_rels(h).map(|it| it.take(bound + 2).count()).ok(),
+                elf::abi::SHT_RELA => s.section_data_as_relas(h).map(|it| it.take(bound + 2).count()).ok(),
+                elf::abi::SHT_NOTE => s.section_data_as_notes(h).map(|it| it.take(bound + 2).count()).ok(),
+                _ => None,
+            };
+            if let Some(n) = n {
+                if n > bound {
+                    return Err(format!("{}-byte {} input ({}): the iterator ElfStream hands out for section {} (type {:#x}, sh_size {:#x}, sh_entsize {:#x}) yields more than {} items", data.len(), inp.mode, inp.note, i, h.sh_type, h.sh_size, h.sh_entsize, bound));
+                }
+                obs.count("stream_iterators_bounded", 1);
+            }
+        }
     }
     obs.count("stream_calls_returned", returned + 1);
-    obs.label(["over_reporting_stream", "file_cut_after_measuring", "permanent_eof", "permanent_error"][mode as usize]);
+    obs.label(["over_reporting_stream", "file_cut_after_measuring", "permanent_eof", "permanent_error", "healthy_stream"][mode as usize]);
     if returned > 0 {
         obs.nontrivial();
     }
     obs.key = fnv64(&data) ^ (mode << 60) ^ fnv64(format!("{:?}", ops).as_bytes()).rotate_left(17);
-    let rname = ["over-reporting", "cut after measuring", "permanent EOF", "permanent error"][mode as usize];
+    let rname = ["over-reporting", "cut after measuring", "permanent EOF", "permanent error", "healthy"][mode as usize];
     obs.describe(|| json!({"input": inp.note, "input_len": data.len(), "reader": rname, "ops": ops.len()}));
     Ok(())
 }
@@ -386,7 +405,7 @@ pub fn property() -> Property {
     Property {
         id: "C16",
         level: "exploration",
-        rule: "links: adversarial link structures built on purpose - SysV hash chains with cycles of every length 1..n and self-loops reached from the queried bucket with a name that never matches; GNU chains without stop bit whose hashes all equal the query's; Verdef/Verneed/aux records with next/aux links from {0,1,own size,aux size,distance to end,2^31,2^32-1,random} and (also backward steps in 32-bit wrapping arithmetic) and declared counts from {1,2,3,2^16-1,2^32-1,2^40,2^64-1}, queried through the iterators and through SymbolVersionTable; note and entry sections with trailing partial records, also driven through nth(0)/skip/step_by on an advanced iterator; Debug formatting of the cyclic tables. walk: the C01 input domain (rich files with overrides/corruption, mutated samples, raw bytes) with every iterator driven to bound+1 items. Oracle: every iterator yields at most one item per input byte, a version-record iterator at most min(declared count, bytes) records, an absent name is never found, and every single case returns before the watchdog limit (15 s for links, 60 s for walk; typical cost is microseconds). Non-trivial (links): the structure is adversarial (cycle / no stop bit / zero, self or overlapping link / count larger than the data) and the lookup or iteration was executed; (walk): corrupted input that opened and reached a hash lookup or version query. stream: files of at most 16 KB behind a stream that reports more bytes than it delivers, was cut after it was measured, delivers nothing or fails from some call on (optionally without SeekFrom::End), 0..12 stream queries; only termination is judged (20 s watchdog); non-trivial when the stream opened and a query returned.",
+        rule: "links: adversarial link structures built on purpose - SysV hash chains with cycles of every length 1..n and self-loops reached from the queried bucket with a name that never matches; GNU chains without stop bit whose hashes all equal the query's; Verdef/Verneed/aux records with next/aux links from {0,1,own size,aux size,distance to end,2^31,2^32-1,random} and (also backward steps in 32-bit wrapping arithmetic) and declared counts from {1,2,3,2^16-1,2^32-1,2^40,2^64-1}, queried through the iterators and through SymbolVersionTable; note and entry sections with trailing partial records, also driven through nth(0)/skip/step_by on an advanced iterator; Debug formatting of the cyclic tables. walk: the C01 input domain (rich files with overrides/corruption, mutated samples, raw bytes) with every iterator driven to bound+1 items. Oracle: every iterator yields at most one item per input byte, a version-record iterator at most min(declared count, bytes) records, an absent name is never found, and every single case returns before the watchdog limit (15 s for links, 60 s for walk; typical cost is microseconds). Non-trivial (links): the structure is adversarial (cycle / no stop bit / zero, self or overlapping link / count larger than the data) and the lookup or iteration was executed; (walk): corrupted input that opened and reached a hash lookup or version query. stream: files of at most 16 KB behind a stream that reports more bytes than it delivers, was cut after it was measured, delivers nothing or fails from some call on (optionally without SeekFrom::End), or is healthy (a fifth), 0..12 stream queries; termination is judged (20 s watchdog), and the relocation / note iterators the stream hands out for the first 48 sections yield at most one item per section byte; non-trivial when the stream opened and a query returned.",
         assumptions: &["wall-clock watchdog: limits are far above the worst legitimate nested walk on the generated sizes (version sections <= 420 bytes, files <= 16 KiB)", "a hang is detected by the watchdog; termination is not proved"],
         subs: vec![Sub::new("links", oracle_links, 400, 3_000_000, 40_000_000).hang_violation().hang_secs(15), Sub::new("walk", oracle_walk, 3000, 250_000, 8_000_000).hang_violation().shrink(2000), Sub::new("walk_raw", oracle_walk_raw, 600, 20_000, 200_000).hang_violation().shrink(2000), Sub::new("stream", oracle_stream, 1500, 40_000, 1_500_000).hang_violation().hang_secs(20).shrink(300)],
         extras: vec![crate::fuzz::c16_campaign],
